@@ -5,9 +5,15 @@ ID = 'C11'
 THEOREMS = S.THEOREMS
 COMPONENTS = ['schema table REGENERATED from /repo/eaopack/*.py by harness/schema_gen.py on every run (translator self-check: stored keys and signatures of real objects vs the table)', 'value codec on real datetimes/arrays/indices']
 RULE = ('every (de)serialisable class x parameter forms (scalars, interval dicts with naive/aware datetimes, numpy arrays, DatetimeIndex, price keys; all options) before and after a set-up call: save, load, re-save, compare problems for 2 grids/prices exactly; portfolios with naive and zone-aware own grids; '
+        'stream dst: portfolio-owned grids on zones with daylight saving time (incl. southern hemisphere and a 30 min shift) whose start and/or end are zone-aware time stamps (Timestamp, datetime, zoneinfo datetime, fixed UTC offset) at the switches - first and second occurrence of the repeated span, its borders, the neighbours of the gap - with and without the timezone keyword, steps 15min/30min/h/2h/d; on grids given by zoneinfo datetimes the asset dates are zoneinfo datetimes too (known finding F-11f: violations of that cause carry the fact kind=zoneinfo_dates); the grid oracle compares the time points as instants AND as local times with UTC offset, the zone of the points AND the tz attribute, start/end, T, dt, Dt, unit, freq; '
+        'stream sweep: every constructor parameter of every class of the regenerated schema table (underscore parameters included; CHP classes with _no_heat on one node and on power+fuel nodes; nodes with commodity and unit) occurs with another value than its default - asserted by the case `coverage` against the schema table and inspect.signature: a parameter never exercised is written to the evidence as feature param-gap:<Class>.<param> (param-exempt: with the reason in harness/comp/serial.py EXEMPT) and printed as COVERAGE-GAP, it is not a violation; feature param:<Class>.<param> counts the cases in which the object with that parameter was built, saved and loaded; '
         'non-trivial = object with at least one non-default structured parameter that round-trips to an identical problem; distinct by case hash')
 ASSUMPTIONS = ['strftime/strptime modelled as a lawful codec on whole seconds (tested on the real code by the codec oracle)']
 MODELLED = ['float repr round trip of json; pandas zone handling']
+PARTIAL = ['parameter `profile` (all asset classes): not exercised - eaopack accepts only a pandas Series together with `freq`, raises NotImplementedError in every set-up of such an asset and TypeError when saving it',
+           'Unit.factor: only the default 1 is accepted by the constructor',
+           'Timegrid.ref_timegrid: out of scope - a Timegrid with ref_timegrid is an internal restricted view of another grid, not something a user sets as a portfolio\'s grid (the serialiser does not store the reference grid); not generated',
+           'LinkedAsset: parameters are generated with non-default values, but the class cannot be loaded (known finding F-11d), so no round trip of them is observed']
 EXPLANATION = 'the class schema is regenerated from source and RoundTripOK re-proved by decide +kernel over the regenerated table on every run; roundtrip_of_schema lifts it to all object trees; oracle on the real code'
 TECHNIQUE = 'Lean 4 theorems over a schema model REGENERATED from the source by a translator (decide +kernel over the finite table, lifted by structural induction) + round-trip oracle on the real code'
 NEEDS_DRIVER = False
